@@ -111,5 +111,5 @@ class ParallelModel(ConfigurableModel):
         # Apply aggregator if provided
         if self.aggregator:
             # Convert dictionary of results to a list of values for the aggregator
-            return self.aggregator(list(results.values()))
+            return self.aggregator([results[name] for name, _ in self.step_configs])
         return results
